@@ -54,11 +54,11 @@ PROG = '''
 from edgegraph.structure import Vertex, Universe
 from refmodel import ref_join, ref_leave, dedup, same_set, no_repeats
 
-univ = [list(o._universes) for o in objs]
+univ = [list(o.universes) for o in objs]
 memb = []
 for o in objs:
     if isinstance(o, Universe):
-        memb.append(list(o._vertices))
+        memb.append(list(o.vertices))
     else:
         memb.append(None)
 raised = None
@@ -110,9 +110,9 @@ lists_ok = True
 i = 0
 while i < len(objs2):
     o = objs2[i]
-    lists_ok = lists_ok and same_set(o._universes, univ[i]) and no_repeats(o._universes)
+    lists_ok = lists_ok and same_set(list(o.universes), univ[i]) and no_repeats(list(o.universes))
     if memb[i] is not None:
-        lists_ok = lists_ok and (o._vertices == memb[i])
+        lists_ok = lists_ok and (list(o.vertices) == memb[i])
     i = i + 1
 '''
 
@@ -120,9 +120,9 @@ while i < len(objs2):
 def state_obs(B, objs, unis):
     obs = {}
     for o in objs:
-        obs[B.label_of(o) + "._universes"] = B.get_field(o, "_universes")
+        obs[B.label_of(o) + "._universes"] = B.get_public(o, "universes")
     for u in unis:
-        obs[B.label_of(u) + "._members"] = B.get_field(u, "_vertices")
+        obs[B.label_of(u) + "._members"] = B.get_public(u, "vertices")
     return obs
 
 
@@ -159,14 +159,14 @@ def scenario(B, p):
     if p["mode"] == "shared_arg":
         out = B.run(PROG_SHARED, {"arg": B.reflist("arg", unis, p["alen"], p["alen"])})
         objs = objs + [B.label(out["va"], "va"), B.label(out["vb"], "vb")]
-        B.prove("Inv02 after two constructions from one list", inv02(B, objs, unis))
+        B.prove("Inv02 after two constructions from one list", inv02(B, objs, unis, public=True))
         fam = FAMILIES[B.choice("s0.op", 4)]
         out = do_step(B, fam, objs, unis, "s0.", 1)
         B.observe("raised", out["raised"])
         for k, v in state_obs(B, objs, unis).items():
             B.observe(k, v)
         B.reach("bmc:step")
-        B.prove(f"Inv02 after {fam} (vertices built from one shared list)", inv02(B, objs, unis))
+        B.prove(f"Inv02 after {fam} (vertices built from one shared list)", inv02(B, objs, unis, public=True))
         B.prove(f"raises exactly when a non-member is removed ({fam}, shared list)", out["raise_ok"])
         B.prove(f"membership lists equal the reference step's ({fam}, shared list)", out["lists_ok"])
         return
@@ -188,7 +188,7 @@ def scenario(B, p):
         B.reach("ind:" + p["family"])
         if out["must_raise"]:
             B.reach("raised-nonmember")
-        B.prove("Inv02 after " + p["family"], inv02(B, objs2, unis2))
+        B.prove("Inv02 after " + p["family"], inv02(B, objs2, unis2, public=True))
         B.prove("raises exactly when a non-member is removed (" + p["family"] + ")", out["raise_ok"])
         B.prove("every membership list equals the reference step's (" + p["family"] + ")", out["lists_ok"])
         return
@@ -202,7 +202,7 @@ def scenario(B, p):
             unis = unis + new
         B.observe(f"raised{step}", out["raised"])
         B.reach("bmc:step")
-        B.prove(f"Inv02 after step {step + 1} ({fam})", inv02(B, objs, unis))
+        B.prove(f"Inv02 after step {step + 1} ({fam})", inv02(B, objs, unis, public=True))
         B.prove(f"raises exactly when a non-member is removed, step {step + 1} ({fam})", out["raise_ok"])
         B.prove(f"membership lists equal the reference step's, step {step + 1} ({fam})", out["lists_ok"])
     for k, v in state_obs(B, objs, unis).items():
